@@ -81,7 +81,7 @@ theorem mon_settle {c : Cfg} (hc : Plain c) {pick : List Nat → Option Nat} :
       · exact Mon.of_ws rfl
   | succ fuel ih =>
     intro s
-    simp only [settle]
+    simp only [settle, giveUp_eq hc.toRetrying]
     cases hr : s.retries with
     | nil => exact Mon.refl s
     | cons inp rest =>
@@ -114,6 +114,7 @@ theorem mon_nextInputs (s : St) : Mon s (nextInputs s).2 := by
 theorem mon_tryEnqueue {c : Cfg} (hc : Plain c) {pick : List Nat → Option Nat} (s : St) (w : Nat) :
     Mon s (tryEnqueue c pick s w).1 := by
   unfold tryEnqueue
+  simp only [giveUp_eq hc.toRetrying]
   have hm := mon_nextInputs s
   generalize nextInputs s = r at hm
   obtain ⟨o, s'⟩ := r
